@@ -248,6 +248,8 @@ class LeafV2(Leaf):
     z_gen: Annotated[Path, pathgenerator("new.txt")]
     n_list: Param[List[int]] = []
     n_opt: Param[Optional[Leaf]] = None
+    # a default written with a literal of another type than the declared one (stored values are coerced, the default is not)
+    n_fl: Param[float] = 0
 
 
 class BoxV2(Box):
